@@ -508,6 +508,12 @@ def _getenv(I):
     return v
 
 
+def _bounded_stand_in11(self, tier, undecided):
+    from checks import native
+    return native.stand_in(['C11.'], tier, undecided)
+
+
+C11.bounded_stand_in = _bounded_stand_in11
 CHECK = C11()
 
 
@@ -535,8 +541,7 @@ class SseText(Contract):
         "retry_and_unknown_fields": (["retry: 10\nfoo: bar\nevent: message\ndata: ", 0, "\n\n"], 1, [0]),
         "no_space_after_data_colon": (["event: message\ndata:", 0, "\n\n"], 1, [0]),
     }
-    FINDING = {"no_event_field": "sse-event-without-event-field-dropped",
-               "no_space_after_data_colon": "sse-data-line-without-space-dropped"}
+    FINDING = {}        # both former findings (no event field, no space after `data:`) were repaired in /repo
 
     def __init__(self, shape):
         self.shape = shape
